@@ -6,21 +6,6 @@ Ltac split_andb H :=
          | (_ && _) = true => let H1 := fresh "Hi" in apply andb_true_iff in H; destruct H as [H H1]
          end.
 
-Lemma has_false_notin {K V} `{EqDec K} (k : K) (m : list (K * V)) : ~ In k (map fst m) -> has k m = false.
-Proof.
-  unfold has. induction m as [|[k' v'] m IH]; simpl; intros Hn; [reflexivity|].
-  destruct (eq_dec k k') as [->|Hne]; [exfalso; apply Hn; left; reflexivity|].
-  apply IH. intros Hin. apply Hn. right. exact Hin.
-Qed.
-
-Lemma keys_oins_inv {K V} `{EqDec K} (ltb : K -> K -> bool) k' k (v : V) m :
-  In k' (map fst (oins ltb k v m)) -> k' = k \/ In k' (map fst m).
-Proof.
-  intros Hin. apply in_map_iff in Hin. destruct Hin as (e & <- & He).
-  apply In_oins_inv in He. destruct He as [->|He]; [left; reflexivity|].
-  right. apply in_map_iff. exists e. split; [reflexivity|exact He].
-Qed.
-
 Definition ins_t (m : list (Z * token)) (t : token) := oins lt1 (t_sym t) t m.
 Definition ins_m (m : list (Z * Z)) (t : token) := oins lt1 (t_mu t) (t_sym t) m.
 Definition ins_o (m : list ((Z * Z) * Z)) (t : token) :=
@@ -47,13 +32,6 @@ Proof.
     + apply Hm1. rewrite <- Heq. apply in_map. exact Hin.
     + exact (Hm t' (or_intror Hin) Hk).
   - exact Hm2.
-Qed.
-
-Lemma get_none_all_lt {V} k (m : list (Z * V)) : Forall (fun a => lt1 (fst a) k = true) m -> get k m = None.
-Proof.
-  induction m as [|[k' v'] m IH]; simpl; intros Hall; [reflexivity|].
-  inversion Hall as [|? ? Hk Hall']; subst. simpl in Hk. unfold lt1 in Hk.
-  destruct (eq_dec k k') as [->|Hne]; [lia|]. apply IH. exact Hall'.
 Qed.
 
 (** re-adding the burned totals of a sorted list, one denomination each, gives the list back *)
